@@ -28,15 +28,19 @@ enum Cfg {
 	Disabled,
 	Limit(u32),
 	Unlimited,
+	/// batches unlimited, but max_response_body_size this small: the statement lets the response-size limit replace the
+	/// array by ONE error object (-32011) or an entry's reply by -32008 - nothing else changes (no entry may go missing)
+	SmallResponse(u32),
 }
-const CFGS: [Cfg; 7] = [Cfg::Disabled, Cfg::Limit(0), Cfg::Limit(1), Cfg::Limit(2), Cfg::Limit(3), Cfg::Limit(4), Cfg::Unlimited];
+const CFGS: [Cfg; 9] =
+	[Cfg::Disabled, Cfg::Limit(0), Cfg::Limit(1), Cfg::Limit(2), Cfg::Limit(3), Cfg::Limit(4), Cfg::Unlimited, Cfg::SmallResponse(200), Cfg::SmallResponse(420)];
 
 impl Cfg {
 	fn to_lib(self) -> BatchRequestConfig {
 		match self {
 			Cfg::Disabled => BatchRequestConfig::Disabled,
 			Cfg::Limit(n) => BatchRequestConfig::Limit(n),
-			Cfg::Unlimited => BatchRequestConfig::Unlimited,
+			Cfg::Unlimited | Cfg::SmallResponse(_) => BatchRequestConfig::Unlimited,
 		}
 	}
 }
@@ -72,8 +76,8 @@ enum BatchWant {
 fn entry_class(n: &Node<'_>) -> &'static str {
 	match classify::classify_object(n) {
 		Expect::Call { method, .. } => match method.as_str() {
-			"sub" => "subscribe-call",
-			"unsub" => "unsubscribe-call",
+			"sub" | "sub_reject" => "subscribe-call",
+			"unsub" | "unsub_reject" => "unsubscribe-call",
 			"panic_blocking" => "call-panicking",
 			m if handlers::REGISTERED.contains(&m) => "call",
 			_ => "call-unknown-method",
@@ -289,7 +293,34 @@ fn judge(bytes: &[u8], cfg: Cfg, transport: &str, obs: &Obs) -> Vec<Violation> {
 			}
 		}
 		BatchWant::Array(wants) => {
-			let need: Vec<&EntryWant> = wants.iter().filter(|w| !matches!(w, EntryWant::Nothing)).collect();
+			if let Cfg::SmallResponse(_) = cfg {
+				// the whole array replaced by the one "batch response too large" error
+				if arrays.is_empty() && singles.iter().filter(|r| r.id.is_null() && r.error_code == Some(-32011)).count() == 1 {
+					// (a subscribe entry executed before the array was given up still writes its own frame: the open finding)
+					for r in singles.iter().filter(|r| r.error_code != Some(-32011)) {
+						let is_sub = wants.iter().any(|w| matches!(w, EntryWant::Call(c, class) if c.id == r.id && *class == "subscribe-call"));
+						v("reply-outside-array", &format!("entry={}", if is_sub { "subscribe-call" } else { "unattributed" }), format!("response object delivered outside the array: {r:?}"));
+					}
+					return out;
+				}
+			}
+			let mut need: Vec<&EntryWant> = wants.iter().filter(|w| !matches!(w, EntryWant::Nothing)).collect();
+			let mut trimmed: Vec<Vec<Reply>> = arrays.clone();
+			if let (Cfg::SmallResponse(_), Some(arr)) = (cfg, trimmed.first_mut()) {
+				// an entry whose own reply was too big is answered -32008 under its id: pair those off
+				let mut k = 0;
+				while k < arr.len() {
+					if arr[k].error_code == Some(-32008) {
+						if let Some(p) = need.iter().position(|w| matches!(w, EntryWant::Call(c, _) if c.id == arr[k].id)) {
+							need.remove(p);
+							arr.remove(k);
+							continue;
+						}
+					}
+					k += 1;
+				}
+			}
+			let arrays = trimmed;
 			// responses outside the array: one violation per such response, attributed to the entry it answers
 			// (a subscribe call first, if one with that id exists)
 			for r in &singles {
@@ -364,8 +395,11 @@ fn judge(bytes: &[u8], cfg: Cfg, transport: &str, obs: &Obs) -> Vec<Violation> {
 
 fn server(cfg: Cfg) -> (MemServer, Log) {
 	let log = Log::default();
-	let c = ServerConfig::builder().max_connections(1000).set_batch_request_config(cfg.to_lib()).build();
-	(MemServer::new(c, handlers::echo_module(log.clone())), log)
+	let mut c = ServerConfig::builder().max_connections(1000).set_batch_request_config(cfg.to_lib());
+	if let Cfg::SmallResponse(l) = cfg {
+		c = c.max_response_body_size(l);
+	}
+	(MemServer::new(c.build(), handlers::echo_module(log.clone())), log)
 }
 
 // -------------------------------------------------------------------------------------------------------------
@@ -421,7 +455,7 @@ fn entry(r: &mut Rng, kind: u64, nonce: &str, used_ids: &mut Vec<String>) -> Str
 			"[\"2.0\",null,\"fail\"]",
 		]))
 		.to_string(),
-		12 => format!("{{\"jsonrpc\":\"2.0\",\"id\":{},\"method\":\"sub\",\"params\":[]}}", fresh_id(r, used_ids)),
+		12 => format!("{{\"jsonrpc\":\"2.0\",\"id\":{},\"method\":\"{}\",\"params\":[]}}", fresh_id(r, used_ids), if r.bool() { "sub" } else { "sub_reject" }),
 		13 => format!("{{\"jsonrpc\":\"2.0\",\"id\":{},\"method\":\"unsub\",\"params\":[{}]}}", fresh_id(r, used_ids), 900_000 + r.below(1000)),
 		_ => msggen::mutated_object(r, nonce),
 	}
@@ -562,8 +596,11 @@ fn run_job(job_id: u64, batches: Vec<Vec<u8>>, seed: u64) -> (Evidence, Vec<Viol
 			.iter()
 			.map(|c| {
 				let log = Log::default();
-				let cfg = ServerConfig::builder().max_connections(1000).set_batch_request_config(c.to_lib()).build();
-				(jrv::lowlevel::LowLevel::new(cfg, handlers::echo_module(log.clone())), log)
+				let mut cfg = ServerConfig::builder().max_connections(1000).set_batch_request_config(c.to_lib());
+				if let Cfg::SmallResponse(l) = c {
+					cfg = cfg.max_response_body_size(*l);
+				}
+				(jrv::lowlevel::LowLevel::new(cfg.build(), handlers::echo_module(log.clone())), log)
 			})
 			.collect();
 		for (bi, bytes) in batches.iter().enumerate() {
@@ -573,7 +610,14 @@ fn run_job(job_id: u64, batches: Vec<Vec<u8>>, seed: u64) -> (Evidence, Vec<Viol
 				let b = 1 + r.usize(CFGS.len() - 1);
 				vec![a, (a + b) % CFGS.len()]
 			};
+			// the small-response configurations only see batches whose entries are all short (every single reply fits, so the
+			// only thing the response limit may do is replace the whole array); other batches run unlimited instead
+			let short_entries = {
+				let mut sc = Scanner::new(std::str::from_utf8(bytes).unwrap_or(""));
+				sc.document().ok().is_some_and(|n| n.kind == Kind::Array && n.elems.iter().all(|e| e.raw.len() <= 90))
+			};
 			for ci in cfg_ix {
+				let ci = if matches!(CFGS[ci], Cfg::SmallResponse(_)) && !short_entries { 6 } else { ci };
 				let (cfg, srv, log) = &servers[ci];
 				let (want_http, classes) = want_for(bytes, *cfg, true);
 				// HTTP
@@ -610,6 +654,10 @@ fn run_job(job_id: u64, batches: Vec<Vec<u8>>, seed: u64) -> (Evidence, Vec<Viol
 						if let (Ok(rn), Ok(s)) = (sc.document(), std::str::from_utf8(bytes)) {
 							let mut sc2 = Scanner::new(s);
 							let Ok(bn) = sc2.document() else { continue };
+							if rn.kind != Kind::Array {
+								// (the array was replaced by one error object: nothing to compare entry by entry)
+								continue;
+							}
 							let replies: Vec<Reply> = rn.elems.iter().filter_map(|e| classify::parse_reply(e.raw.as_bytes()).ok()).collect();
 							for (k, wnt) in wants.iter().enumerate() {
 								let EntryWant::Call(c, class) = wnt else { continue };
